@@ -12,9 +12,10 @@
                                       sequences that keeps each partition's own order
    All statements hold for every record type, every `validate`, every partitioning `ps` of the
    input and every interleaving. *)
-From Coq Require Import List ZArith Bool Permutation.
+From Coq Require Import List ZArith Bool Permutation Lia.
 From IB Require Import Engine.Val Engine.Ops Engine.Nodes Engine.Planner
-                       Validation.Model Validation.Pipe Proofs.ValidationProofs.
+                       Validation.Model Validation.Pipe Validation.Tree
+                       Proofs.ValidationProofs Proofs.ValidationTree.
 Import ListNotations.
 Local Open Scope nat_scope.
 
@@ -271,3 +272,175 @@ Theorem c17_combine_validations_old_refuted :
     ~ Forall (fun r => r = VOk) rs /\ combine_validations_old rs = VOk /\
     combine_validations rs = VErr [].
 Proof. exact combine_old_refuted. Qed.
+
+
+(* ====================================================================================
+   Branching pipelines and every validation builder among the other element-wise builders
+   (Validation/Tree.v).  Vocabulary:
+     tg_apply_transform g parent s   PCollection::apply_transform (all five validation builders):
+                                     a fresh Stateless node + an edge parent -> node, returns the
+                                     new handle and the new graph
+     tg_chain g h                    planner.rs backwalk_linear from the handle h
+     tbuild script                   from_vec, then one builder call per (parent handle, step)
+     lineages script                 per handle: its steps between the source and it, as written
+     tcollect g h ps                 collect on handle h, source partitioned as ps: the planned
+                                     block on every partition (result, appends per partition)
+     den_steps ss rows               list semantics of the steps ss in written order: output or
+                                     None (a fail-fast step met an invalid record), and the
+                                     (collector, family, errors) payloads appended
+   ==================================================================================== *)
+
+(* ---------- handles are immutable ----------
+   Attaching a step to a collection gives a NEW handle whose chain is the parent's chain plus the
+   new node; the chain of every handle that existed before (the parent, its other children,
+   anything else) is exactly what it was.  So one collection can feed several validation steps. *)
+Theorem c17_handles_immutable :
+  forall (g : tgraph) (p : nat) (s : tstep) (id : nat) (g' : tgraph),
+    tg_fresh g -> p < tg_next g -> tg_apply_transform g p s = (id, g') ->
+    id = tg_next g /\ tg_next g' = S (tg_next g) /\ tg_fresh g' /\
+    tg_chain g' id = match tg_chain g p with
+                     | Some c => Some (c ++ [TNOp s])
+                     | None => None
+                     end /\
+    (forall h, h < tg_next g -> tg_chain g' h = tg_chain g h).
+Proof. exact apply_transform_chains. Qed.
+
+(* source -> map(+1); a log-mode validation attached to the map step *)
+Example c17_handles_immutable_ex :
+  let g := fst (tbuild [(0, TMap 1)]) in
+  let s := TValidate (BWithMode LogAndContinue (Some 0)) in
+  tg_fresh g /\ 1 < tg_next g /\
+  tg_chain g 1 = Some [TNSource; TNOp (TMap 1)] /\
+  tg_chain (snd (tg_apply_transform g 1 s)) 2 = Some [TNSource; TNOp (TMap 1); TNOp s] /\
+  tg_chain (snd (tg_apply_transform g 1 s)) 1 = Some [TNSource; TNOp (TMap 1)].
+Proof.
+  cbv zeta. split.
+  - split; cbn.
+    + intros k n H. repeat (destruct H as [H|H]; [injection H as H _; subst k; lia|]). contradiction.
+    + intros a b H. repeat (destruct H as [H|H]; [injection H as Ha Hb; subst a b; lia|]).
+      contradiction.
+  - split; [cbn; lia|]. repeat split; vm_compute; reflexivity.
+Qed.
+
+(* ---------- collect runs the handle's own lineage ----------
+   For every build script (every call names an existing handle) and ANY continuation `more` of it:
+   collecting handle h runs exactly the steps of h's lineage, as computed from the script up to
+   the call that created h. *)
+Theorem c17_tree_collect_is_lineage :
+  forall (script more : list (nat * tstep)) (h : nat) (ps : list (list val)),
+    script_wf 1 (script ++ more) = true -> h <= length script ->
+    tcollect (fst (tbuild (script ++ more))) (nth h (snd (tbuild (script ++ more))) 0) ps =
+    Some (trun_parts (nth h (lineages script) []) ps).
+Proof. exact tree_collect. Qed.
+
+(* parent = source.map(+1) (handle 1); children: log to collector 0 (handle 2), fail-fast
+   (handle 3), log to collector 1 (handle 4).  Handle 2 computes the same before and after the
+   siblings are attached; the fail-fast sibling panics, the others do not. *)
+Example c17_tree_collect_is_lineage_ex :
+  let script := [(0, TMap 1); (1, TValidate (BWithMode LogAndContinue (Some 0)))] in
+  let more := [(1, TValidate BFailFast); (1, TValidate (BWithMode LogAndContinue (Some 1)))] in
+  let ps := [[VInt 3; VInt 4]; [VInt 7]]%Z in
+  script_wf 1 (script ++ more) = true /\
+  nth 2 (lineages script) [] = [TMap 1; TValidate (BWithMode LogAndContinue (Some 0))] /\
+  tcollect (fst (tbuild script)) 2 ps = tcollect (fst (tbuild (script ++ more))) 2 ps /\
+  option_map tresult (tcollect (fst (tbuild (script ++ more))) 2 ps) = Some (Ok [VInt 4; VInt 8]%Z) /\
+  option_map tresult (tcollect (fst (tbuild (script ++ more))) 3 ps) = Some Panic /\
+  option_map tresult (tcollect (fst (tbuild (script ++ more))) 1 ps)
+  = Some (Ok [VInt 4; VInt 5; VInt 8]%Z).
+Proof. repeat split; vm_compute; reflexivity. Qed.
+
+(* ---------- every validation builder pins its block ----------
+   A lineage that contains a validation builder (general entry point or wrapper, keyed or not)
+   anywhere is planned exactly as written. *)
+Theorem c17_validation_pins_lineage :
+  forall ss : list tstep, existsb is_tvalidation ss = true -> plan_tsteps ss = ss.
+Proof. exact plan_tsteps_pinned. Qed.
+
+(* map_values then filter_values alone is sorted by the planner (filter first); with the keyed
+   skip wrapper behind them the written order stays *)
+Example c17_validation_pins_lineage_ex :
+  plan_tsteps [TMapValues 1; TFilterValues 2 0] = [TFilterValues 2 0; TMapValues 1] /\
+  plan_tsteps [TMapValues 1; TFilterValues 2 0; TValidateValues BSkipInvalid]
+  = [TMapValues 1; TFilterValues 2 0; TValidateValues BSkipInvalid] /\
+  existsb is_tvalidation [TMapValues 1; TFilterValues 2 0; TValidateValues BSkipInvalid] = true.
+Proof. repeat split; vm_compute; reflexivity. Qed.
+
+(* ---------- list semantics in written order, for every partitioning ----------
+   A lineage with a validation builder anywhere in it -- after, between or before map, filter,
+   key_by, map_values, filter_values, map_values_batches -- run on ANY partitioning of the input:
+   if the list semantics completes, the run completes with exactly that output and every
+   interleaving of the per-partition appends carries, as a multiset, exactly the payloads of the
+   list semantics (one per invalid record reaching a log-mode step with a collector, in the
+   right collector); if a fail-fast step meets an invalid record the run panics. *)
+Theorem c17_tree_list_semantics :
+  forall (ss : list tstep) (input : list val) (ps : list (list val)),
+    existsb is_tvalidation ss = true -> concat ps = input ->
+    match den_steps ss input with
+    | (Some out, pl) =>
+        tresult (trun_parts ss ps) = Ok out /\
+        forall coll, interleaving (tlogs (trun_parts ss ps)) coll ->
+                     Permutation (map tentry_payload coll) pl
+    | (None, _) => tresult (trun_parts ss ps) = Panic
+    end.
+Proof. exact tree_list_semantics. Qed.
+
+(* the keyed skip wrapper AFTER a value transform judges the transformed values: (1,3) and (2,7)
+   become valid under +1, (1,4) becomes invalid *)
+Example c17_tree_list_semantics_ex :
+  let ss := [TMapValues 1; TValidateValues BSkipInvalid;
+             TValidateValues (BWithMode LogAndContinue (Some 2))] in
+  let kv k v := VPair (VInt k) (VInt v) in
+  existsb is_tvalidation ss = true /\
+  den_steps ss [kv 1 3; kv 1 4; kv 2 7]%Z = (Some [kv 1 4; kv 2 8]%Z, []) /\
+  tresult (trun_parts ss [[kv 1 3]; [kv 1 4; kv 2 7]]%Z) = Ok [kv 1 4; kv 2 8]%Z /\
+  den_steps [TValidateValues (BWithMode LogAndContinue (Some 2)); TMapValues 1]
+            [kv 1 3; kv 1 4]%Z = (Some [kv 1 5]%Z, [(2, true, [12; 13; 14]%Z)]) /\
+  fst (den_steps [TMap 1; TValidate BFailFast] [VInt 3; VInt 4]%Z) = None.
+Proof. repeat split; vm_compute; reflexivity. Qed.
+
+(* ---------- branching + written order together ----------
+   In any pipeline tree, whatever else is attached before or after, a handle whose lineage
+   contains a validation builder computes the list semantics of its own lineage. *)
+Theorem c17_branch_validation :
+  forall (script more : list (nat * tstep)) (h : nat) (input : list val) (ps : list (list val)),
+    script_wf 1 (script ++ more) = true -> h <= length script ->
+    existsb is_tvalidation (nth h (lineages script) []) = true -> concat ps = input ->
+    exists rs,
+      tcollect (fst (tbuild (script ++ more))) (nth h (snd (tbuild (script ++ more))) 0) ps
+      = Some rs /\
+      match den_steps (nth h (lineages script) []) input with
+      | (Some out, pl) =>
+          tresult rs = Ok out /\
+          forall coll, interleaving (tlogs rs) coll -> Permutation (map tentry_payload coll) pl
+      | (None, _) => tresult rs = Panic
+      end.
+Proof. exact tree_branch_semantics. Qed.
+
+Example c17_branch_validation_ex :
+  let script := [(0, TMap 1); (1, TValidate (BWithMode LogAndContinue (Some 0)))] in
+  let more := [(1, TValidate BFailFast); (2, TKeyBy 3)] in
+  script_wf 1 (script ++ more) = true /\
+  existsb is_tvalidation (nth 2 (lineages script) []) = true /\
+  den_steps (nth 2 (lineages script) []) [VInt 3; VInt 4; VInt 7]%Z
+  = (Some [VInt 4; VInt 8]%Z, [(0, false, [20]%Z)]) /\
+  nth 2 (snd (tbuild (script ++ more))) 0 = 2.
+Proof. repeat split; vm_compute; reflexivity. Qed.
+
+(* ---------- the convenience wrappers ----------
+   validate_skip_invalid / validate_fail_fast / validate_values_skip_invalid build the operator
+   their general twin builds with (mode, None): same planner-visible operator (flags, body), same
+   plan, same run on every partitioning, same list semantics. *)
+Theorem c17_wrappers_are_twins :
+  forall (ss : list tstep) (ps : list (list val)),
+    (forall uid, compile_tfrom uid (map twin_step ss) = compile_tfrom uid ss) /\
+    trun_parts (map twin_step ss) ps = trun_parts ss ps /\
+    (forall rows, den_steps (map twin_step ss) rows = den_steps ss rows).
+Proof. exact wrappers_are_twins. Qed.
+
+Example c17_wrappers_are_twins_ex :
+  map twin_step [TMapValues 1; TValidateValues BSkipInvalid; TValidate BFailFast]
+  = [TMapValues 1; TValidateValues (BWithMode SkipInvalid None);
+     TValidate (BWithMode FailFast None)] /\
+  op_rs (compile_tstep 0 (TValidateValues BSkipInvalid)) = false /\
+  op_vo (compile_tstep 0 (TValidateValues BSkipInvalid)) = true.
+Proof. repeat split; vm_compute; reflexivity. Qed.
